@@ -788,6 +788,7 @@ impl ConnectBuilder {
         self.will_payload_buf = Some(will_payload);
 
         let mut flags = self.connect_flags_buf.unwrap_or([0b0000_0010])[0];
+        flags &= !0b0011_1000; // Clear Will QoS and Will retain of an earlier call
         flags |= 0b0000_0100; // Will flag
         flags |= (qos as u8) << 3; // Will QoS
         if retain {
